@@ -311,6 +311,13 @@ where
                 self.execute_code_block(block.body(), cb_table)?;
             }
 
+            // the loop may be exited only when the condition is ZERO: any other value left on the
+            // stack by the loop body is not binary
+            let condition = self.stack.peek();
+            if condition != ZERO {
+                return Err(ExecutionError::NotBinaryValue(condition));
+            }
+
             // end the LOOP block and drop the condition from the stack
             self.end_loop_block(block, true)
         } else if condition == ZERO {
